@@ -3,7 +3,7 @@ import random
 import props_PN
 from propdefs import bfs
 
-N_DOCS = 23
+N_DOCS = 24
 GOOD_URLS = [1, 2, 3, 4, 16]
 ODD_URLS = [5, 6, 7, 8, 9, 10, 11, 12, 13, 14, 15]
 
